@@ -899,6 +899,114 @@ func (c *RC) singleRet(fn *FuncInfo) (*Term, bool) {
 	return ex[0].Ret[0], true
 }
 
+// DEF-COUNTS: what CountCommitted and CountFailed count, validator by validator. The two feed the "more than F committed or
+// lost" restraint on view changes and recovery (C09: a node must neither give up a view the others are locked in, nor wait
+// for validators that are gone). Their loops are walked once for one arbitrary validator; on every path the decision
+// "counted / not counted" must be the canonical one and the path must know enough to make it:
+//   committed(i) ≡ Commit[i] ≠ nil ∨ PreCommit[i] ≠ nil
+//   failed(i)    ≡ ¬committed(i) ∧ (last seen = nil ∨ its height < BlockIndex ∨ its view < ViewNumber)
+func ruleDefCounts(c *RC) *RuleResult {
+	r := &RuleResult{Rule: "DEF-COUNTS", Kind: "DEF", Doc: "CountCommitted counts exactly the validators with a Commit or PreCommit of this height; CountFailed exactly those without either whose last seen message is missing or of an older height / view"}
+	type tri int // 0 unknown, 1 true, 2 false
+	val := func(known, v bool) tri {
+		if !known {
+			return 0
+		}
+		if v {
+			return 1
+		}
+		return 2
+	}
+	or := func(xs ...tri) tri {
+		u := false
+		for _, x := range xs {
+			if x == 1 {
+				return 1
+			}
+			if x == 0 {
+				u = true
+			}
+		}
+		if u {
+			return 0
+		}
+		return 2
+	}
+	not := func(x tri) tri { return map[tri]tri{0: 0, 1: 2, 2: 1}[x] }
+	and := func(xs ...tri) tri {
+		var ys []tri
+		for _, x := range xs {
+			ys = append(ys, not(x))
+		}
+		return not(or(ys...))
+	}
+	for _, k := range []string{"CountCommitted", "CountFailed"} {
+		fn := c.Prog.fn("Context." + k)
+		r.Sites++
+		if fn == nil {
+			r.unresolved("exported method Context." + k)
+			continue
+		}
+		c.A.oneIter = true
+		exits := c.A.walkFuncFull(fn, newState(), false, false, true, nil)
+		c.A.oneIter = false
+		if len(exits) == 0 {
+			r.unresolved("paths of Context." + k)
+			continue
+		}
+		bad := ""
+		for _, e := range exits {
+			if len(e.Ret) != 1 || e.Ret[0] == nil {
+				bad = "no result"
+				break
+			}
+			nf := nfString(e.Ret[0])
+			counted := nf == "1" || strings.HasSuffix(nf, "+1") || strings.HasPrefix(nf, "1+")
+			// what the path knows about the validator in question
+			var C, P, N, H, V tri
+			for key, v := range e.F.m {
+				at := e.F.atoms[key]
+				if at == nil || at.A == nil {
+					continue
+				}
+				reads := func(t *Term, loc string) bool { return t != nil && t.readsLoc(loc) }
+				switch {
+				case at.Op == "nn" && at.A.K == KIndex && at.A.Args[0].S == "ctx.CommitPayloads":
+					C = val(true, v)
+				case at.Op == "nn" && at.A.K == KIndex && at.A.Args[0].S == "ctx.PreCommitPayloads":
+					P = val(true, v)
+				case at.Op == "nn" && reads(at.A, "ctx.LastSeenMessage"):
+					N = val(true, v)
+				case at.Op == "lt" && reads(at.A, "ctx.LastSeenMessage") && at.B != nil && at.B.S == "ctx.BlockIndex":
+					H = val(true, v)
+				case at.Op == "lt" && reads(at.A, "ctx.LastSeenMessage") && at.B != nil && at.B.S == "ctx.ViewNumber":
+					V = val(true, v)
+				}
+			}
+			committed := or(C, P)
+			want := committed
+			if k == "CountFailed" {
+				want = and(not(committed), or(not(N), H, V))
+			}
+			switch {
+			case want == 0:
+				bad = "a validator is " + map[bool]string{true: "counted", false: "passed over"}[counted] + " on a path that does not know enough to decide {" + strings.Join(e.Trail, "; ") + "}"
+			case (want == 1) != counted:
+				bad = "a validator is " + map[bool]string{true: "counted", false: "passed over"}[counted] + " although the definition says otherwise on path {" + strings.Join(e.Trail, "; ") + "}"
+			}
+			if bad != "" {
+				break
+			}
+		}
+		if bad == "" {
+			r.ok(fmt.Sprintf("Context.%s: canonical on each of %d per-validator paths", k, len(exits)))
+		} else {
+			r.fail("Context."+k+"/definition", c.Prog.Pos(fn.Decl), "Context."+k+" does not count what its name says: "+bad)
+		}
+	}
+	return r
+}
+
 func nfN() string { return "len(ctx.Validators)" }
 func nfF() string { return "div(len(ctx.Validators)-1,3)" }
 
